@@ -29,6 +29,21 @@ type evalEnv struct {
 	inOld bool
 	iters map[string]*iterInfo // loop ordinal name -> iterator (for visited())
 	gvars map[string]string    // ghost locals of the enclosing function: name -> sort
+	// allocation watermark at the entry of the function the contract belongs to
+	// ("" => the function under verification): at a call site, the watermark
+	// just before the call, so isnew(x) means "allocated by this call"
+	entryAlloc Term
+	// non-nil while a callee's ensures are evaluated at a call site: called()
+	// and callres() speak about the callee's own call sites, which the caller
+	// cannot see - they denote unknown (but fixed) values there
+	calleeView map[string]Term
+}
+
+func (env *evalEnv) entryMark() Term {
+	if env.entryAlloc != "" {
+		return env.entryAlloc
+	}
+	return env.fx.entryAlloc
 }
 
 type evalErr struct{ msg string }
@@ -591,13 +606,13 @@ func (env *evalEnv) evalCall(x *ECall) cval {
 		// isnew(x): the object x was allocated during this function's execution
 		argn(1)
 		v := env.eval(x.Args[0])
-		return cval{t: "(> " + v.t + " " + fx.entryAlloc + ")", sort: "Bool"}
+		return cval{t: "(> " + v.t + " " + env.entryMark() + ")", sort: "Bool"}
 	case "allocated":
 		// allocated(x): x exists now (it is not an object that will be allocated later)
 		argn(1)
 		v := env.eval(x.Args[0])
 		if env.inOld {
-			return cval{t: "(<= " + v.t + " " + fx.entryAlloc + ")", sort: "Bool"}
+			return cval{t: "(<= " + v.t + " " + env.entryMark() + ")", sort: "Bool"}
 		}
 		return cval{t: "(<= " + v.t + " " + env.st.alloc + ")", sort: "Bool"}
 	case "store":
@@ -701,6 +716,13 @@ func (env *evalEnv) evalCall(x *ECall) cval {
 	case "called":
 		// called("call.Recv#1"): that call was executed on this path
 		argn(1)
+		if env.calleeView != nil {
+			k := "called|" + typeArg(x.Args[0])
+			if _, ok := env.calleeView[k]; !ok {
+				env.calleeView[k] = fx.freshConst("callee.called", "Bool")
+			}
+			return cval{t: env.calleeView[k], sort: "Bool"}
+		}
 		_, ok := env.st.callRes[typeArg(x.Args[0])]
 		return cval{t: strconv.FormatBool(ok), sort: "Bool"}
 	case "callres":
@@ -708,6 +730,13 @@ func (env *evalEnv) evalCall(x *ECall) cval {
 		argn(3)
 		rs, ok := env.st.callRes[typeArg(x.Args[0])]
 		srt, typ := env.resolveType(typeArg(x.Args[2]))
+		if env.calleeView != nil {
+			k := "callres|" + typeArg(x.Args[0]) + "|" + x.Args[1].String()
+			if _, ok := env.calleeView[k]; !ok {
+				env.calleeView[k] = fx.freshConst("callee.res", srt)
+			}
+			return cval{t: env.calleeView[k], sort: srt, typ: typ}
+		}
 		if !ok {
 			// not executed on this path: an arbitrary value (guard with called())
 			return cval{t: fx.freshConst("nocall", srt), sort: srt, typ: typ}
